@@ -85,11 +85,13 @@ func UnmarshalAttribute(attr *api.Attribute) (bgp.PathAttributeInterface, error)
 		var linkLocalNexthop netip.Addr
 		if rf.Afi() == bgp.AFI_IP6 {
 			nexthop = netip.IPv6Unspecified()
-			if len(a.MpReach.NextHops) > 1 {
-				linkLocalNexthop, err = netip.ParseAddr(a.MpReach.NextHops[1])
-				if err != nil || !linkLocalNexthop.Is6() {
-					return nil, fmt.Errorf("invalid nexthop: %s", a.MpReach.NextHops[1])
-				}
+		}
+		// A link-local next hop may follow an IPv6 global next hop whatever
+		// the AFI of the family is (RFC 8950, VPN/EVPN/LS over IPv6).
+		if len(a.MpReach.NextHops) > 1 {
+			linkLocalNexthop, err = netip.ParseAddr(a.MpReach.NextHops[1])
+			if err != nil || !linkLocalNexthop.Is6() {
+				return nil, fmt.Errorf("invalid nexthop: %s", a.MpReach.NextHops[1])
 			}
 		}
 		if rf.Safi() == bgp.SAFI_FLOW_SPEC_UNICAST || rf.Safi() == bgp.SAFI_FLOW_SPEC_VPN {
